@@ -84,8 +84,8 @@ def Sim (s : State) (sp : Spec) : Prop := RInv s ∧ abs s = sp
 
 theorem machine_view (s : State) : modelMachine.view s = specMachine.view (abs s) := rfl
 
-theorem machine_obs (s : State) (op : Op) (h : RInv s) :
-    modelMachine.obs nImg s op = specMachine.obs nImg (abs s) op := obs_refines nImg s op h
+theorem machine_obs (n : Nat) (s : State) (op : Op) (h : RInv s) :
+    modelMachine.obs n s op = specMachine.obs n (abs s) op := obs_refines n s op h
 
 theorem machine_step (s : State) (op : Op) (h : RInv s) :
     Sim (modelMachine.step s op) (specMachine.step (abs s) op) :=
